@@ -126,7 +126,7 @@ func c03(r *Run) {
 		}
 	}
 	if nFree == 0 {
-		broken("ANCHOR-LOST C03: mcache.Free is never called")
+		r.absentf(" C03: mcache.Free is never called")
 	}
 
 	// ---- R2 free is guarded by ownership ---------------------------------------------------------------
@@ -211,7 +211,7 @@ func c03(r *Run) {
 		}
 	}
 	if nCaller < 2 {
-		broken("ANCHOR-LOST C03: only %d stores of caller memory into node.buf", nCaller)
+		r.absentf(" C03: only %d stores of caller memory into node.buf", nCaller)
 	}
 	// who changes the ownership flag
 	for _, site := range callSitesOf(w, unsetFlag) {
